@@ -9,7 +9,7 @@
 (*                        weightedRandom, totalWeight;   sp.loadBalancer.Store(lb)  = IReplace    *)
 (*   LoadBalancer()       atomic load                                                = ILoad     *)
 (*   roundRobin           counter := atomic.AddUint64(&lb.counter,1)-1; Servers[counter % n]      *)
-(*   ipHash/headerHash    Servers[fnv32(key) % n]                                                 *)
+(*   ipHash/headerHash    Servers[fnv32(key) % n]  (hv: one hash function for every balancer)      *)
 (*   weightedRandom       r := rand.Intn(totalWeight); walk the list subtracting weights          *)
 (*   random               Servers[rand.Intn(n)]                                                   *)
 (*                                                                                              *)
@@ -28,11 +28,14 @@ EXTENDS LoadBalance
 (*              W > 0  a W-bit counter that wraps to 0 - a negative control: when the number of       *)
 (*                     servers does not divide 2^W the rotation restarts out of phase and TLC must    *)
 (*                     find the unfair count (reached from an aged balancer, IAge).                   *)
-CONSTANTS AtomicRR, FixedWR, HashRange, CtrBits
+(*   Reseed   = FALSE  is the code: every hash balancer uses the same function of the key (FNV);      *)
+(*              TRUE   a hash function drawn per balancer object (a seeded hash) - a negative control:  *)
+(*                     a rebuild over the unchanged list then moves keys and TLC must find it.           *)
+CONSTANTS AtomicRR, FixedWR, HashRange, CtrBits, Reseed
 
 VARIABLES objs,      \* objs[g]: sequence of [id, w] - the Servers slice of generation g's balancer
           ctr,       \* ctr[g]: the round robin counter of generation g's balancer
-          hv,        \* the hash function Keys -> 0..HashRange-1 (fixed along a behaviour)
+          hv,        \* hv[g]: the hash function Keys -> 0..HashRange-1 of generation g's balancer
           tmp,       \* per caller: counter value read (non-atomic variant only)
           panicked   \* some ChooseServer call panicked
 
@@ -52,20 +55,26 @@ RECURSIVE Walk(_, _)
 Walk(q, r) == IF q = <<>> THEN NIL            \* "BUG: should not run to here"
               ELSE IF r - Head(q).w < 0 THEN Head(q).id ELSE Walk(Tail(q), r - Head(q).w)
 
+HashFns == IF cfg.policy \in {"ipHash", "headerHash"} THEN [Keys -> 0..(HashRange - 1)] ELSE {[k \in Keys |-> 0]}
+
 IInit ==
     /\ Init
     /\ objs = <<CHOOSE o \in Orders(cfg.static) : TRUE>>      \* the configured order (one representative)
     /\ ctr = <<0>>
-    /\ hv \in IF cfg.policy \in {"ipHash", "headerHash"} THEN [Keys -> 0..(HashRange - 1)]
-               ELSE {[k \in Keys |-> 0]}
+    /\ \E h \in HashFns : hv = <<h>>
     /\ tmp = [p \in Procs |-> 0]
     /\ panicked = FALSE
 
+(* useService: the tagged instances in the order the map range yields them, or sp.spec.Servers - the   *)
+(* configured slice itself - when none qualifies.  The list is unchanged when the slice built equals    *)
+(* the current one.                                                                                     *)
 IReplace(I) ==
-    /\ Replace(I)
-    /\ \E o \in Orders(NewList(I)) : objs' = Append(objs, o)
+    /\ \E o \in (IF Tagged(I) = {} THEN {objs[1]} ELSE Orders(NewList(I))) :
+          /\ ReplaceAs(I, o = objs[gen])
+          /\ objs' = Append(objs, o)
     /\ ctr' = Append(ctr, 0)
-    /\ UNCHANGED <<hv, tmp, panicked>>
+    /\ IF Reseed THEN \E h \in HashFns : hv' = Append(hv, h) ELSE hv' = Append(hv, hv[1])
+    /\ UNCHANGED <<tmp, panicked>>
 
 Wrapped(c) == IF CtrBits = 0 THEN c ELSE c % (2 ^ CtrBits)
 
@@ -118,7 +127,7 @@ IWriteRR(p) ==
 
 IChooseHash(p) ==
     /\ pc[p] = "pick" /\ objs[sg[p]] # <<>> /\ cfg.policy \in {"ipHash", "headerHash"}
-    /\ Chosen(p, At(objs[sg[p]], hv[key[p]]))
+    /\ Chosen(p, At(objs[sg[p]], hv[sg[p]][key[p]]))
     /\ UNCHANGED ivars
 
 IChooseRandom(p) ==
